@@ -637,7 +637,8 @@ package fsm
 
 // crash-safety invariant of a table's data directory d: the durable `current` names a directory
 // whose entry in d is durable (so that after a crash at any later point Open finds it)
-//@ pure func recoverable(fs vfs.FS, d string) bool = fs.dCur[d] != "" ==> fs.dHas[pjoin(d, fs.dCur[d])]
+// and the name it holds is a DB directory name, never one of the two fixed file names
+//@ pure func recoverable(fs vfs.FS, d string) bool = (fs.dCur[d] != "" ==> fs.dHas[pjoin(d, fs.dCur[d])]) && fs.dCur[d] != "current.updating" && fs.dCur[d] != "current"
 
 // Open (after a restart the volatile namespace equals the durable one): keeps the invariant at
 // every exit, in particular it never makes `current` durable before the directory it names.
@@ -645,9 +646,11 @@ package fsm
 //@   functype FSM.appliedFunc appliedContract
 //@   results idx, err
 //@   requires p != nil && p.fs != nil && p.log != nil && p.appliedFunc != nil && p.metrics != nil && parentOf(p.dirname) != p.dirname
-//@   requires [restart] p.fs.vCur[p.dirname] == p.fs.dCur[p.dirname] && (p.fs.dCur[p.dirname] != "" ==> p.fs.vHas[pjoin(p.dirname, p.fs.dCur[p.dirname])])
+//@   requires [restart] p.fs.vCur[p.dirname] == p.fs.dCur[p.dirname] && (forall q string :: p.fs.vHas[q] == p.fs.dHas[q])
+//@   dead return 8      // defensive check: under the invariant the directory `current` names exists
 //@   requires [inv] recoverable(p.fs, p.dirname)
 //@   ensures [C04.open.recoverable] recoverable(p.fs, p.dirname)
+//@   ensures [C04.open.dir] err == nil ==> p.fs.vHas[p.dirname] && isDirP(p.fs, p.dirname)
 //@   modifies p.fs.vHas, p.fs.dHas, p.fs.dCur, p.fs.vCur, p.fs.updName, p.fs.opened, p.pebble.v, world.syncedPath
 
 // ---------------------------------------------------------------- in-cluster snapshots (C08)
@@ -716,6 +719,7 @@ package fsm
 //@   params rc, r, stopc
 //@   results er
 //@   requires rcOK(rc) && rcFSM(rc).fs != nil && rcFSM(rc).log != nil && rcFSM(rc).metrics != nil && r != nil && parentOf(rcFSM(rc).dirname) != rcFSM(rc).dirname
+//@   requires [opened] rcFSM(rc).fs.vHas[rcFSM(rc).dirname] && isDirP(rcFSM(rc).fs, rcFSM(rc).dirname)
 //@   requires [inv] recoverable(rcFSM(rc).fs, rcFSM(rc).dirname) && (rcFSM(rc).fs.dCur[rcFSM(rc).dirname] != "" ==> rcFSM(rc).fs.vHas[pjoin(rcFSM(rc).dirname, rcFSM(rc).fs.dCur[rcFSM(rc).dirname])]) && rcFSM(rc).fs.vCur[rcFSM(rc).dirname] == rcFSM(rc).fs.dCur[rcFSM(rc).dirname] && rcFSM(rc).fs.dCur[rcFSM(rc).dirname] != "current.updating"
 //@   ensures [C08.install.recoverable] recoverable(rcFSM(rc).fs, rcFSM(rc).dirname)
 //@   ensures [C08.install.swap] rcFSM(rc).pebble.v != old(rcFSM(rc).pebble.v) ==> rcFSM(rc).fs.dCur[rcFSM(rc).dirname] == rcFSM(rc).fs.vCur[rcFSM(rc).dirname] && rcFSM(rc).fs.opened[pjoin(rcFSM(rc).dirname, rcFSM(rc).fs.dCur[rcFSM(rc).dirname])]
@@ -767,6 +771,7 @@ package fsm
 //@   maypanic
 //@   results er
 //@   requires p != nil && r != nil && p.fs != nil && p.log != nil && p.metrics != nil && parentOf(p.dirname) != p.dirname
+//@   requires [opened] p.fs.vHas[p.dirname] && isDirP(p.fs, p.dirname)
 //@   requires [inv] recoverable(p.fs, p.dirname) && (p.fs.dCur[p.dirname] != "" ==> p.fs.vHas[pjoin(p.dirname, p.fs.dCur[p.dirname])]) && p.fs.vCur[p.dirname] == p.fs.dCur[p.dirname] && p.fs.dCur[p.dirname] != "current.updating"
 //@   before fsm.snapshotRecoverer.recover assert [C08.dispatch] (r.fmtByte == 0 ==> typeIs(rc, *snapshot)) && (r.fmtByte == 1 ==> typeIs(rc, *checkpoint))
 //@   ensures [C08.install.recoverable+C04] recoverable(p.fs, p.dirname)
@@ -876,6 +881,7 @@ package fsm
 //@   params s, r, stopc
 //@   results er
 //@   requires s != nil && s.fsm != nil && s.fsm.fs != nil && s.fsm.log != nil && s.fsm.metrics != nil && r != nil && parentOf(s.fsm.dirname) != s.fsm.dirname
+//@   requires [opened] s.fsm.fs.vHas[s.fsm.dirname] && isDirP(s.fsm.fs, s.fsm.dirname)
 //@   requires [inv] recoverable(s.fsm.fs, s.fsm.dirname) && (s.fsm.fs.dCur[s.fsm.dirname] != "" ==> s.fsm.fs.vHas[pjoin(s.fsm.dirname, s.fsm.fs.dCur[s.fsm.dirname])]) && s.fsm.fs.vCur[s.fsm.dirname] == s.fsm.fs.dCur[s.fsm.dirname] && s.fsm.fs.dCur[s.fsm.dirname] != "current.updating"
 //@   before pebble.ReplaceCurrentDBFile assert [C08.install.opened+C04] fs.opened[pjoin(dir, fs.updName[dir])]
 // `current` is switched only after the new DB has been filled from the stream (an install interrupted at ingest leaves the old state)
@@ -908,6 +914,7 @@ package fsm
 //@   params c, r, stopc
 //@   results er
 //@   requires c != nil && c.fsm != nil && c.fsm.fs != nil && c.fsm.log != nil && c.fsm.metrics != nil && r != nil && parentOf(c.fsm.dirname) != c.fsm.dirname
+//@   requires [opened] c.fsm.fs.vHas[c.fsm.dirname] && isDirP(c.fsm.fs, c.fsm.dirname)
 //@   requires [inv] recoverable(c.fsm.fs, c.fsm.dirname) && (c.fsm.fs.dCur[c.fsm.dirname] != "" ==> c.fsm.fs.vHas[pjoin(c.fsm.dirname, c.fsm.fs.dCur[c.fsm.dirname])]) && c.fsm.fs.vCur[c.fsm.dirname] == c.fsm.fs.dCur[c.fsm.dirname] && c.fsm.fs.dCur[c.fsm.dirname] != "current.updating"
 //@   before pebble.ReplaceCurrentDBFile assert [C08.install.opened+C04] fs.opened[pjoin(dir, fs.updName[dir])]
 //@   ensures [C08.install.recoverable] recoverable(c.fsm.fs, c.fsm.dirname)
